@@ -106,7 +106,11 @@ func (o *Obl) BuildQuery() string {
 	body.WriteString("(set-option :produce-models true)\n(set-logic ALL)\n")
 	for _, k := range specPreludeOrder {
 		if used[k] {
-			body.WriteString(specPreludes[k])
+			if o.Expect == "sat" {
+				body.WriteString(declsOnly(specPreludes[k]))
+			} else {
+				body.WriteString(specPreludes[k])
+			}
 		}
 	}
 	for _, k := range extraPreludeOrder {
@@ -141,6 +145,18 @@ func (o *Obl) BuildQuery() string {
 	}
 	body.WriteString("(check-sat)\n")
 	return body.String()
+}
+
+// declsOnly keeps the declare-fun lines of a prelude (cover queries drop axioms).
+func declsOnly(p string) string {
+	var b strings.Builder
+	for _, l := range strings.Split(p, "\n") {
+		if strings.HasPrefix(l, "(declare-fun") {
+			b.WriteString(l)
+			b.WriteByte('\n')
+		}
+	}
+	return b.String()
 }
 
 var extraPreludes = map[string]string{}
